@@ -1,0 +1,29 @@
+//go:build verif
+
+package file
+
+// VerifHook, when set, is called by the file store after each file primitive (build tag `verif` only;
+// without the tag verifHook is an empty function, see verif_hook_off.go).
+//
+//	kind            file             offset                         data
+//	"open"          name             0                              nil     openOrCreateFile succeeded (the file exists now)
+//	"seek-start"    name             0                              nil     Seek(0, io.SeekStart) on the store's read-write handle
+//	"seek-end"      name             resulting offset, -1 unknown   nil     Seek(0, io.SeekEnd) on the store's read-write handle
+//	"write"         name             -1 (at the handle's position)  bytes   Write(data) returned without error
+//	"write-seqnum"  name             the sequence number            nil     Fprintf(f, "%019d", seqNum) at the handle's position
+//	"write-appended" name            -1                             nil     bytes were appended at the position of the preceding seek-end (the listener reads them from the file)
+//	"sync"          name             0                              nil     Sync returned (closeSyncFile: whatever it returned)
+//	"close"         name             0                              nil     Close returned
+//	"remove"        name             0                              nil     os.Remove returned nil or "does not exist"
+//	"ro-seek-start" name             0                              nil     Seek(0, io.SeekStart) on a read-only view (IterateMessages)
+//	"step"          operation:step   0                              nil     between the steps of Reset / Refresh / SaveMessageAndIncrNextSenderMsgSeqNum
+//
+// The callback runs on the goroutine of the store operation, possibly with the store's file mutex held:
+// it must not call back into the store.
+var VerifHook func(kind, file string, offset int64, data []byte)
+
+func verifHook(kind, file string, offset int64, data []byte) {
+	if h := VerifHook; h != nil {
+		h(kind, file, offset, data)
+	}
+}
